@@ -1,7 +1,7 @@
 CHECK = dict(
     level='exploration',
-    parts=[dict(name='c18', src=['harness/c18_hex.c'], workers=16,
-                deadline=dict(quick=240, thorough=1500))],
+    parts=[dict(name='c18', src=['harness/c18_hex.c'], lib=['hex.c'], workers=16,
+                deadline=dict(quick=900, thorough=3000))],
     rule='bounded-exhaustive enumeration driving the real hex.c, three sub-spaces: (a) byte arrays of length 0..49 with '
          'every byte value at every position over 5 backgrounds, dumped with hex_dump_to_file into a memstream, shape of '
          'the text checked, text parsed back with hex_get_byte; (b) every text of the grammar '
@@ -46,3 +46,4 @@ CHECK.update(
 )
 
 CHECK['variants'] = ['c18']
+CHECK['variant_unsigned_char'] = True
